@@ -1,5 +1,6 @@
 import LopdfModel.Model.Obj
 import LopdfModel.Model.Pages
+import LopdfModel.Model.Read
 import LopdfModel.Gen.Crypt
 import LopdfModel.Gen.Tables
 /-
@@ -852,8 +853,39 @@ def decodeState (P : Prims) (enc : Dict) (fileId pw : Bytes) : Except Err EncSta
             ownerValue := a.ownerValue, ownerEncrypted := a.ownerEncrypted, userValue := a.userValue,
             userEncrypted := a.userEncrypted, permissions := a.permissions, permsEncrypted := a.permsEncrypted }
 
-/-- `Document::decrypt_raw` for documents without `ObjStm` streams (their re-expansion is
-outside this model; the harness never puts one into a C05 case). -/
+/-- is this a stream with `/Type /ObjStm` (`stream.dict.has_type(b"ObjStm")`) -/
+def isObjStmStream : Obj → Bool
+  | .stream d _ => hasType d OBJSTM
+  | _ => false
+
+/-- the members `decrypt_raw` collects from the (now decrypted) object streams, container by
+container in `BTreeMap` order: `object_streams.extend(obj_stream.objects)`; a container that
+`ObjectStream::new` cannot read contributes nothing.  `none`: a container carries a `Filter` or a
+non-ASCII index (outside the model of `ObjectStream::new`, Model/Read.lean). -/
+def objStmExtras : Objects → Option (List (ObjId × Obj))
+  | [] => some []
+  | (_, o) :: rest =>
+    match objStmExtras rest with
+    | none => none
+    | some tail =>
+      match o with
+      | .stream d c =>
+        if hasType d OBJSTM then
+          match objStmObjects d c with
+          | .ok objs => some (objs ++ tail)
+          | .err "ext" => none
+          | _ => some tail
+        else some tail
+      | _ => some tail
+
+/-- `self.objects.entry(id).or_insert(entry)`: only add, never replace -/
+def orInsertAll (os : Objects) : List (ObjId × Obj) → Objects
+  | [] => os
+  | (id, o) :: rest => orInsertAll (if (Objects.get os id).isSome then os else Objects.insert os id o) rest
+
+/-- `Document::decrypt_raw`: authenticate, decode the state, decrypt every object but the encryption
+dictionary, re-expand the object streams (members never replace existing objects), drop the
+Encrypt entry and object. -/
 def Doc.decryptRaw (P : Prims) (d : Doc) (pw : Bytes) : Except Err Doc :=
   match d.getEncrypted with
   | some enc =>
@@ -874,8 +906,12 @@ def Doc.decryptRaw (P : Prims) (d : Doc) (pw : Bytes) : Except Err Doc :=
           match decObjects P st encId d.objects with
           | .error e => .error e
           | .ok os =>
-            .ok { trailer := d.trailer.remove K_ENCRYPT,
-                  objects := (match encId with | some id => Objects.erase os id | none => os), maxId := d.maxId }
+            match objStmExtras os with
+            | none => .error (.other "ext")
+            | some extras =>
+              let os := orInsertAll os extras
+              .ok { trailer := d.trailer.remove K_ENCRYPT,
+                    objects := (match encId with | some id => Objects.erase os id | none => os), maxId := d.maxId }
   | none => .error .notEncrypted
 
 /-- `sanitize_password_r4` on the UTF-16 code units of the password: every unit is looked up in
